@@ -226,3 +226,4 @@ package socket
 //@   property C14
 //@   flags libframe
 //@   requires?[caller-holds-socket-lock] held(addr(s.mu))
+//@ guarded (*socket).curState by atomic @C14
